@@ -22,7 +22,10 @@ PLAIN_DIRS = ["src", "pkg", "a", "lib"]
 SUPPORTED_EXT = [".py", ".js", ".ts", ".c", ".cpp", ".h", ".java", ".cs"]
 UNSUPPORTED_EXT = [".txt", ".md", ".rs"]
 STEMS = ["main", "util", "x", "mod", "test", "build", "b"]
-NOEXT = ["Makefile", "README", "LICENSE"]
+NOEXT = ["Makefile", "README", "LICENSE", "BUILD", "WORKSPACE", "SConstruct", "Dockerfile", "Rakefile"]
+# extension-less names Pygments maps to a supported language by their full name (seeded change C11-3:
+# a per-extension lexer cache makes the first extension-less name decide for all others)
+NOEXT_LANG = {"BUILD": "Python", "WORKSPACE": "Python", "SConstruct": "Python"}
 
 # Appendix A: the 26 built-in patterns of the pinned commit (the Lean pinning theorem
 # C11.default_excludes_pinned states the same list about the regenerated constant)
@@ -38,6 +41,8 @@ EXT_LANG = {".py": "Python", ".js": "JavaScript", ".ts": "TypeScript", ".c": "C"
 
 
 def expected_language(name):
+    if name in NOEXT_LANG:
+        return NOEXT_LANG[name]
     for ext, lang in EXT_LANG.items():
         if name.endswith(ext) and len(name) > len(ext):
             return lang
@@ -99,9 +104,9 @@ def gen_file_name(rnd):
     r = rnd.random()
     if r < 0.62:
         return rnd.choice(STEMS) + rnd.choice(SUPPORTED_EXT)
-    if r < 0.8:
+    if r < 0.76:
         return rnd.choice(STEMS) + rnd.choice(UNSUPPORTED_EXT)
-    if r < 0.9:
+    if r < 0.92:
         return rnd.choice(NOEXT)
     return rnd.choice(HIDDEN_FILES)
 
@@ -214,17 +219,17 @@ def prune(node, keep, pre=()):
     return ("D", node[1], ch)
 
 
-# ------------------------------------------------------------------ exclusion patterns (5 unambiguous classes)
+# ------------------------------------------------------------------ exclusion patterns (6 unambiguous classes)
 
 def gen_patterns(rnd, tree=None):
-    """0-3 patterns of the five classes; two thirds of them built from names that occur in the
+    """0-3 patterns of the six classes; two thirds of them built from names that occur in the
     tree (so that they bite), the rest from the pools (mostly no match)"""
     k = rnd.choice([0, 1, 1, 2, 2, 3])
     files = all_files(tree) if tree else []
     vis = [c for c, _ in files if not spec_hidden(c)]
     out = []
     for _ in range(k):
-        c = rnd.randrange(5)
+        c = rnd.randrange(6)
         comps = rnd.choice(vis) if vis and rnd.random() < 0.67 else None
         if c == 0:
             out.append(rnd.choice(comps) if comps else rnd.choice(PLAIN_DIRS + ["main.py", "util.js", "README", "x.c"]))
@@ -238,13 +243,24 @@ def gen_patterns(rnd, tree=None):
                 out.append("/".join(comps[:rnd.randint(2, len(comps))]))
             else:
                 out.append(rnd.choice(PLAIN_DIRS) + "/" + rnd.choice(PLAIN_DIRS + ["main.py", "x.ts", "mod.java"]))
-        else:
+        elif c == 4:
             out.append((comps[0] if comps and len(comps) > 1 else rnd.choice(PLAIN_DIRS)) + "/*")
+        else:
+            # "/name": only the top-level entry of that name (seeded change C11-4: pruning directories by
+            # their bare name also drops a same-named directory deeper in the tree); names are taken from
+            # ANY level of a path so that the non-matching deeper occurrence exists
+            if comps and rnd.random() < 0.5 and len(comps) > 2:
+                out.append("/" + "/".join(comps[:2]))
+            else:
+                out.append("/" + (rnd.choice(comps) if comps else rnd.choice(PLAIN_DIRS)))
     return out
 
 
 def pattern_matches(pat, comps):
-    """direct reading of the five gitignore classes on a root-relative path (of a file)"""
+    """direct reading of the six gitignore classes on a root-relative path (of a file)"""
+    if pat.startswith("/"):                     # /a[/b]: the entry of that path directly under the root
+        ps = tuple(pat[1:].split("/"))
+        return tuple(comps[:len(ps)]) == ps
     if pat.endswith("/*"):                      # a/*  : anything below the top-level directory a
         return len(comps) >= 2 and comps[0] == pat[:-2]
     if pat.endswith("/"):                       # dir/ : a directory of that name anywhere on the way
